@@ -117,9 +117,9 @@ func runC17(c *Ctx) {
 		}
 		// the completion channel: the channel F closes after the I/O, captured by the watcher
 		var goInstr *ssa.Go
-		instrsOf(F, func(in ssa.Instruction) {
+		instrsOfU(F, func(in ssa.Instruction) {
 			if g, ok := in.(*ssa.Go); ok {
-				if mc, ok := g.Call.Value.(*ssa.MakeClosure); ok && mc.Fn == ssa.Value(W) {
+				if mc, ok := g.Call.Value.(*ssa.MakeClosure); ok && sameOrigin(mc.Fn, ssa.Value(W)) {
 					goInstr = g
 				}
 			}
@@ -259,7 +259,7 @@ func runC17(c *Ctx) {
 			if forced != nil {
 				// the path ended without a restore: allowed only on the edge where forcing reported an error
 				for _, ft := range pth.Conds {
-					if nilFact(ft, func(v ssa.Value) bool { return v == ssa.Value(forced) }, false) {
+					if nilFact(ft, func(v ssa.Value) bool { return sameOrigin(v, ssa.Value(forced)) }, false) {
 						forcedFailed = true
 					}
 				}
@@ -365,7 +365,7 @@ func runC17(c *Ctx) {
 			}
 		}
 		var ctxErr *ssa.Call
-		instrsOf(F, func(in ssa.Instruction) {
+		instrsOfU(F, func(in ssa.Instruction) {
 			if cl, ok := in.(*ssa.Call); ok && cl.Call.IsInvoke() && cl.Call.Method.Name() == "Err" && cl.Call.Value.Type().String() == "context.Context" {
 				ctxErr = cl
 			}
@@ -389,7 +389,7 @@ func runC17(c *Ctx) {
 			errIdx := len(ret.Results) - 1
 			for _, v := range retValAt(ret, errIdx) {
 				for _, lf := range phiLeavesWithPred(v) {
-					if ctxErr != nil && lf.v == ssa.Value(ctxErr) {
+					if ctxErr != nil && sameOrigin(lf.v, ssa.Value(ctxErr)) {
 						// the edge must carry ctxErr != nil and n == 0
 						blk := lf.pred
 						if blk == nil {
@@ -398,7 +398,7 @@ func runC17(c *Ctx) {
 						facts := guardsOfBlock(blk)
 						okNil, okZero := false, false
 						for _, ft := range facts {
-							if nilFact(ft, func(x ssa.Value) bool { return x == ssa.Value(ctxErr) }, false) {
+							if nilFact(ft, func(x ssa.Value) bool { return sameOrigin(x, ssa.Value(ctxErr)) }, false) {
 								okNil = true
 							}
 							cm, ok := normCmp(ft.Cond, ft.Val)
@@ -470,7 +470,7 @@ func selCaseOnPath(p *upath, sel *ssa.Select) int {
 			continue
 		}
 		ex, ok := b.X.(*ssa.Extract)
-		if !ok || ex.Index != 0 || ex.Tuple != ssa.Value(sel) {
+		if !ok || ex.Index != 0 || !sameOrigin(ex.Tuple, ssa.Value(sel)) {
 			continue
 		}
 		if k, ok := constInt(b.Y); ok {
